@@ -5,6 +5,7 @@ PROPS = {
         direct("near-tie", "TestC01NearTie", quick=dict(shards=2, timeout=900), thorough=dict(shards=4, timeout=3600)),
         direct("preoak", "TestC01PreOak", quick=dict(shards=5, timeout=900), thorough=dict(shards=12, timeout=3600)),
         rapid("rapid", "TestC01", dict(shards=16, checks=150), dict(shards=16, checks=5000, timeout=6000)),
+        rapid("checkpoint", "TestC01Checkpoint", dict(shards=8, checks=100), dict(shards=16, checks=3000, timeout=3000)),
     ]),
     "C17": dict(pkg="chain", level="exploration", stages=[
         direct("exhaustive", "TestC17Exhaustive"),
